@@ -409,7 +409,7 @@ def run_case(desc):
         r["status"] = "inconclusive"
         r["reason"] = "watchdog fired twice with the main thread outside pipefunc/concurrent.futures"
         return r
-    return v.result(keys=keys, sample={"desc": desc, "injections": v.counters.get("injections", 0),
+    return v.result(evaluations=v.counters.get("injections", 0), keys=keys, sample={"desc": desc, "injections": v.counters.get("injections", 0),
                                        "example": keys[0] if keys else None} if desc["i"] % 20 == 0 else None)
 
 
